@@ -3,8 +3,42 @@
 #[cfg(kani)]
 mod kani_c08 {
     use super::length_prefixed::{to_length_prefixed, to_length_prefixed_nested};
-    use crate::wasm::{Wasm, WasmKeeper};
-    use cosmwasm_std::{Addr, Empty};
+    use crate::wasm::{ContractData, Wasm, WasmSudo};
+    use crate::app::CosmosRouter;
+    use crate::contracts::Contract;
+    use crate::error::AnyResult;
+    use crate::executor::AppResponse;
+    use cosmwasm_std::{Addr, Api, Binary, BlockInfo, Empty, Querier, Record, Storage, WasmMsg, WasmQuery};
+
+    /// a Wasm implementor with nothing in it: only the trait's own default method contract_namespace
+    /// (the real code under test) is used
+    struct W;
+    impl Wasm<Empty, Empty> for W {
+        fn execute(&self, _: &dyn Api, _: &mut dyn Storage, _: &dyn CosmosRouter<ExecC = Empty, QueryC = Empty>, _: &BlockInfo, _: Addr, _: WasmMsg) -> AnyResult<AppResponse> {
+            unreachable!()
+        }
+        fn query(&self, _: &dyn Api, _: &dyn Storage, _: &dyn Querier, _: &BlockInfo, _: WasmQuery) -> AnyResult<Binary> {
+            unreachable!()
+        }
+        fn sudo(&self, _: &dyn Api, _: &mut dyn Storage, _: &dyn CosmosRouter<ExecC = Empty, QueryC = Empty>, _: &BlockInfo, _: WasmSudo) -> AnyResult<AppResponse> {
+            unreachable!()
+        }
+        fn store_code(&mut self, _: Addr, _: Box<dyn Contract<Empty, Empty>>) -> u64 {
+            unreachable!()
+        }
+        fn store_code_with_id(&mut self, _: Addr, _: u64, _: Box<dyn Contract<Empty, Empty>>) -> AnyResult<u64> {
+            unreachable!()
+        }
+        fn duplicate_code(&mut self, _: u64) -> AnyResult<u64> {
+            unreachable!()
+        }
+        fn contract_data(&self, _: &dyn Storage, _: &Addr) -> AnyResult<ContractData> {
+            unreachable!()
+        }
+        fn dump_wasm_raw(&self, _: &dyn Storage, _: &Addr) -> Vec<Record> {
+            unreachable!()
+        }
+    }
 
     fn starts_with(a: &[u8], b: &[u8]) -> bool {
         if b.len() > a.len() {
@@ -24,7 +58,8 @@ mod kani_c08 {
     fn any_addr(buf: &[u8; 2], len: usize) -> Addr {
         // ASCII address text of 0..=2 symbolic characters
         kani::assume(buf[0] < 0x80 && buf[1] < 0x80);
-        Addr::unchecked(core::str::from_utf8(&buf[..len]).unwrap())
+        // ASCII is valid UTF-8; skipping the validation loop keeps the harness small
+        Addr::unchecked(unsafe { core::str::from_utf8_unchecked(&buf[..len]) })
     }
 
     /// raw storage prefix of a contract = nested("wasm", contract_namespace(addr)): two contracts'
@@ -33,7 +68,7 @@ mod kani_c08 {
     #[kani::proof]
     #[kani::unwind(28)]
     fn c08_contract_prefixes_disjoint() {
-        let k = WasmKeeper::<Empty, Empty>::new();
+        let k = W;
         let (ba, bb): ([u8; 2], [u8; 2]) = (kani::any(), kani::any());
         let (la, lb): (usize, usize) = (kani::any(), kani::any());
         kani::assume(la <= 2 && lb <= 2);
@@ -52,6 +87,6 @@ mod kani_c08 {
         let registry = to_length_prefixed_nested(&[b"wasm", b"contracts"]);
         assert!(!related(&pa, &bank) && !related(&pa, &staking) && !related(&pa, &distr));
         assert!(!related(&pa, &registry), "contract storage never overlaps the contract registry");
-        core::mem::forget((na, nb, pa, pb, bank, staking, distr, registry, k));
+        core::mem::forget((na, nb, pa, pb, bank, staking, distr, registry));
     }
 }
